@@ -68,8 +68,12 @@ STD_HIER = {
 FUNNELS = [("CppCheck::checkInternal", 0, "checkInternal.outer"), ("CppCheck::checkInternal", 1, "checkInternal.perConfiguration"),
            ("CppCheck::checkClang", 0, "checkClang")]
 # guard kinds (Site.guard / PEdge.blocked come from these AST-checked rules)
-GUARD_KINDS = {1: "at-dominated-by-count/find", 2: "at-dominated-by-size", 3: "ProgramMemory::at-dominated-by-hasValue",
-               4: "picojson-get-dominated-by-is", 5: "closed-run (input-free path executed by the check)", 6: "at-on-nonempty-matched-token"}
+GUARD_KINDS = {1: "std container .at(k) dominated by count(k)/find(k) on the same object", 2: "std container .at(i) dominated by size() > i on the same object",
+               3: "ProgramMemory::at(id) dominated by hasValue(id) on the same object", 4: "picojson value.get<T>() dominated by value.is<T>()",
+               5: "closed run: the edge is only taken by an input-free option which the check executes",
+               7: "throw inside a precondition function: every call of the function is a site of its caller (kinds 3/4 decide there)"}
+# project functions that throw iff their precondition is violated: each call is treated like a throwing std call of the caller
+PRECOND_FUNCS = {"ProgramMemory::at": ["std::out_of_range"], "picojson::value::get": ["std::runtime_error"]}
 # input-free paths: the edge caller -> callee is only taken for the given option, which the check executes
 CLOSED_RUNS = [("CmdLineParser::parseFromArgs", "CppCheck::getErrorMessages", ["--errorlist"]),
                ("CmdLineParser::parseFromArgs", "CmdLineParser::printHelp", ["--help"])]
@@ -130,20 +134,44 @@ def headers_digest():
     return h.hexdigest()
 
 
-def extract_one(tool, key, tu):
-    out = os.path.join(CACHE, key + ".jsonl")
-    if os.path.exists(out):
-        return out, None
-    env = dict(os.environ)
-    env["C13_ROOTS"] = ":".join(os.path.join(REPO, r) for r in ROOTS)
-    r = subprocess.run([tool, tu, "--"] + CLANG_FLAGS, stdout=subprocess.PIPE, stderr=subprocess.PIPE, env=env)
-    text = r.stdout.decode("utf-8", "replace")
-    if r.returncode != 0 or not text.rstrip().endswith('{"k":"end"}'):
-        return None, "extractor failed on %s (rc=%s): %s" % (tu, r.returncode, r.stderr.decode("utf-8", "replace")[-800:])
-    tmp = out + ".%d.tmp" % os.getpid()
-    open(tmp, "w").write(text)
-    os.replace(tmp, out)
-    return out, None
+def preprocessed_key(th, flags, tu):
+    """second-level cache key: hash of the preprocessed translation unit (with line markers, so header line shifts count)"""
+    r = subprocess.run(["clang++-14", "-E"] + CLANG_FLAGS + [tu], stdout=subprocess.PIPE, stderr=subprocess.PIPE)
+    if r.returncode != 0:
+        return None, "preprocessing %s failed: %s" % (tu, r.stderr.decode("utf-8", "replace")[-500:])
+    return sha(th + flags + tu + sha(r.stdout)), None
+
+
+def extract_one(tool, th, flags, l1, tu):
+    """returns (path of the record file, error, extracted_now).  Two cache levels: l1 = (tool, flags, all headers, this file)
+    -> alias to l2 = (tool, flags, preprocessed text of this TU): after a header edit only the TUs whose preprocessed
+    text changed are dumped again."""
+    alias = os.path.join(CACHE, "l1-" + l1 + ".key")
+    if os.path.exists(alias):
+        l2 = open(alias).read().strip()
+        out = os.path.join(CACHE, l2 + ".jsonl")
+        if os.path.exists(out):
+            return out, None, False
+    l2, err = preprocessed_key(th, flags, tu)
+    if err:
+        return None, err, False
+    out = os.path.join(CACHE, l2 + ".jsonl")
+    now = False
+    if not os.path.exists(out):
+        env = dict(os.environ)
+        env["C13_ROOTS"] = ":".join(os.path.join(REPO, r) for r in ROOTS)
+        r = subprocess.run([tool, tu, "--"] + CLANG_FLAGS, stdout=subprocess.PIPE, stderr=subprocess.PIPE, env=env)
+        text = r.stdout.decode("utf-8", "replace")
+        if r.returncode != 0 or not text.rstrip().endswith('{"k":"end"}'):
+            return None, "extractor failed on %s (rc=%s): %s" % (tu, r.returncode, r.stderr.decode("utf-8", "replace")[-800:]), False
+        tmp = out + ".%d.tmp" % os.getpid()
+        open(tmp, "w").write(text)
+        os.replace(tmp, out)
+        now = True
+    tmp = alias + ".%d.tmp" % os.getpid()
+    open(tmp, "w").write(l2)
+    os.replace(tmp, alias)
+    return out, None, now
 
 
 def extract_all(ctx=None):
@@ -154,32 +182,31 @@ def extract_all(ctx=None):
     flags = sha(" ".join(CLANG_FLAGS) + "|" + ":".join(ROOTS))
     jobs = []
     for tu in translation_units():
-        key = sha(th + flags + hd + tu + sha(open(tu, "rb").read()))
-        jobs.append((key, tu))
+        jobs.append((sha(th + flags + hd + tu + sha(open(tu, "rb").read())), tu))
     t0 = time.time()
-    missing = [j for j in jobs if not os.path.exists(os.path.join(CACHE, j[0] + ".jsonl"))]
-    errs = []
-    if missing:
-        with concurrent.futures.ThreadPoolExecutor(max_workers=min(8, max(2, (os.cpu_count() or 4) // 2))) as ex:
-            for out, err in ex.map(lambda j: extract_one(tool, j[0], j[1]), missing):
-                if err:
-                    errs.append(err)
+    errs, outs, n_now, n_pp = [], [], 0, 0
+    with concurrent.futures.ThreadPoolExecutor(max_workers=min(8, max(2, (os.cpu_count() or 4) // 2))) as ex:
+        for (l1, tu), (out, err, now) in zip(jobs, ex.map(lambda j: extract_one(tool, th, flags, j[0], j[1]), jobs)):
+            if err:
+                errs.append(err)
+            outs.append(out)
+            n_now += 1 if now else 0
     if errs:
         raise Unrecognised("; ".join(errs)[:3000])
-    allkey = sha("".join(k for k, _ in jobs))
+    allkey = sha("".join(os.path.basename(o) for o in outs))
     merged = os.path.join(CACHE, "merged-" + allkey + ".jsonl")
     if not os.path.exists(merged):
         seen = set()
         tmp = merged + ".%d.tmp" % os.getpid()
         with open(tmp, "w") as f:
-            for key, tu in jobs:
-                for line in open(os.path.join(CACHE, key + ".jsonl")):
+            for o in outs:
+                for line in open(o):
                     if line not in seen:
                         seen.add(line)
                         f.write(line)
         os.replace(tmp, merged)
         # keep the cache directory bounded
-        live = set(k + ".jsonl" for k, _ in jobs) | {os.path.basename(merged)}
+        live = set(os.path.basename(o) for o in outs) | {os.path.basename(merged)} | set("l1-" + k + ".key" for k, _ in jobs)
         for p in os.listdir(CACHE):
             if p not in live and time.time() - os.path.getmtime(os.path.join(CACHE, p)) > 6 * 3600:
                 try:
@@ -187,7 +214,7 @@ def extract_all(ctx=None):
                 except OSError:
                     pass
     recs = [json.loads(l) for l in open(merged)]
-    return recs, dict(tus=len(jobs), extracted_now=len(missing), extract_s=round(time.time() - t0, 1), records=len(recs))
+    return recs, dict(tus=len(jobs), extracted_now=n_now, extract_s=round(time.time() - t0, 1), records=len(recs))
 
 
 # ================================================================================================
@@ -211,9 +238,9 @@ def split_top(s, sep):
                 q = None
         elif c in "\"'":
             q = c; cur += c
-        elif c in "([{<" and not (c == "<" and (i + 1 < len(s) and s[i + 1] in " =<")):
+        elif c in "([{":          # angle brackets are not tracked (comparison operators are far more common in conditions)
             depth += 1; cur += c
-        elif c in ")]}>" and not (c == ">" and (i > 0 and s[i - 1] in " -=>")):
+        elif c in ")]}":
             depth -= 1; cur += c
         elif depth == 0 and s.startswith(sep, i):
             parts.append(cur); cur = ""; i += len(sep) - 1
@@ -302,8 +329,12 @@ def site_guard(call):
     return 0
 
 
+def precond_guard(call):
+    """guard kind for a call of a precondition function (PRECOND_FUNCS), 0 if the precondition is not established syntactically"""
+    return edge_guard(call)[0]
+
+
 def edge_guard(call):
-    """(kind, [blocked type names]) for a call edge into a project function with a throwing precondition"""
     name = call["name"]
     if "conds" not in call:
         return 0, []
@@ -436,19 +467,29 @@ def analyse(recs):
         if k in seen_site:
             continue
         seen_site.add(k)
-        sites.append(dict(fn=s["fn"], ty=s["type"], ctx=hls, guard=0, loc=s["loc"], what="throw" + (" (rethrow)" if s["rethrow"] else ""), macro=s.get("macro", "")))
+        g = 0
+        if fn[s["fn"]]["name"] in PRECOND_FUNCS:
+            if s["type"] not in PRECOND_FUNCS[fn[s["fn"]]["name"]]:
+                raise Unrecognised("%s throws %s, the precondition rule knows %s" % (fn[s["fn"]]["name"], s["type"], PRECOND_FUNCS[fn[s["fn"]]["name"]]))
+            g = 7
+        sites.append(dict(fn=s["fn"], ty=s["type"], ctx=hls, guard=g, loc=s["loc"], what="throw" + (" (rethrow)" if s["rethrow"] else ""), macro=s.get("macro", "")))
     n_std_calls = 0
     for c in sorted(calls, key=lambda c: (c["loc"], c["fn"], c["name"])):
         if c["callee"] in fn:
-            continue
-        ts = stdthrows(c["name"])
+            if c["name"] not in PRECOND_FUNCS:
+                continue
+            ts = PRECOND_FUNCS[c["name"]]
+            pre = True
+        else:
+            ts = stdthrows(c["name"])
+            pre = False
         if not ts:
             continue
         if c["fn"] not in fidx:
             raise Unrecognised("call in unknown function at " + c["loc"])
         n_std_calls += 1
         hls = handler_lists(c["fn"], c["ctx"])
-        g = site_guard(c)
+        g = precond_guard(c) if pre else site_guard(c)
         for t in ts:
             k = (c["fn"], c["loc"], t, c["name"])
             if k in seen_site:
@@ -482,7 +523,7 @@ def analyse(recs):
         if c["fn"] not in fidx:
             raise Unrecognised("call in unknown function at " + c["loc"])
         hls = handler_lists(c["fn"], c["ctx"])
-        kind, blocked = edge_guard(c)
+        blocked = []
         for (crn, cen, opts) in CLOSED_RUNS:
             if fn[c["fn"]]["name"] == crn and c["name"] == cen:
                 blocked = list(tlist)
@@ -909,7 +950,8 @@ SIGNATURES = {
     "json-nonfinite-number": dict(kind="uncaught", detail=r"std::overflow_error", args=r"--(addon|project)=\S*\.json"),
     "define-option-macro-error": dict(kind="uncaught", detail=r"simplecpp::Macro::Error", args=r"(^| )-D"),
     "json-entry-type-mismatch": dict(kind="uncaught", detail=r"std::runtime_error\|.*type mismatch! call is<type>", args=r"--project=\S*\.json"),
-    "vcxproj-condition-unlinked-bracket": dict(kind="signal", detail=r"11", args=r"--project=\S*\.vcxproj", input=r"Condition=\"[^\"]*\["),
+    "vcxproj-condition-segv": dict(kind="signal", detail=r"11", args=r"--project=\S*\.vcxproj", input=r"Condition="),
+    "ast-nested-lambda-hang": dict(kind="timeout", detail=r"", input=r"\[\]\s*\{[^;]*\[\]\s*\{"),
     "vcxproj-condition-internalerror": dict(kind="uncaught", detail=r"InternalError", args=r"--project=\S*\.vcxproj", input=r"Condition="),
     "gui-project-library-comma": dict(kind="uncaught", detail=r"std::runtime_error\|handling of multiple libraries", args=r"--project=\S*\.cppcheck"),
     "suppress-xml-non-numeric": dict(kind="uncaught", detail=r"std::runtime_error\|converting '.*' to integer failed", args=r"--suppress-xml="),
@@ -988,7 +1030,7 @@ def source_seeds():
 
 
 NEST = [("(", ")"), ("{", "}"), ("[", "]"), ("<", ">"), ("((", "))"), ("{(", ")}"), ("a<", ">"), ("if(x){", "}"), ("f(", ")"), ("#if 1\n", "\n#endif\n"),
-        ("x?", ":0"), ("!", ""), ("*", ""), ("sizeof(", ")"), ("[]{", "}()"), ("template<class T> struct A{", "};"), ("namespace N{", "}"),
+        ("x?", ":0"), ("!", ""), ("*", ""), ("sizeof(", ")"), ("template<class T> struct A{", "};"), ("namespace N{", "}"),
         ("try{", "}catch(...){}"), ("a=", ""), ("a,", ""), ("-", ""), ("(int)", ""), ("a->", ""), ("a::", "")]
 
 
@@ -1228,7 +1270,7 @@ def run(ctx, res):
         except core.CheckBroken as ex:
             res.oblig("build:asan-variant", False, "machinery", str(ex))
     exe = private_bin(ctx, variant)
-    tmo = 120 if variant == "asan" else 25
+    tmo = 120 if variant == "asan" else 12
     workers = 6 if thorough else 4
     # closed-run guards: input-free paths are executed
     if M is not None:
@@ -1240,7 +1282,7 @@ def run(ctx, res):
     corpus_fail = []
     for c in cases:
         files = dict((k, v.encode("latin-1")) for k, v in c["files"].items())
-        o = run_case(ctx, exe, files, c["args"], tmo)
+        o = run_case(ctx, exe, files, c["args"], (30 if variant == "asan" else 8) if c.get("expect") == "timeout" else tmo)
         res.case("corpus|" + c["name"], True, dict(tie="corpus", op=c["name"], impl="%s %s" % (o["kind"], o.get("detail", "")), model="finding " + str(c.get("finding"))))
         res.count("origin:corpus")
         if o["kind"] != "ok":
